@@ -34,6 +34,11 @@ CUTNEST = ['timed_spin_wait_until', 'enqueue_task', 'nested_arena_contextC2E', '
 UNITS['exec_e'] = dict(EXEC, cut=CUTNEST, threads={'vp_thr_entrant': ['a'], 'vp_thr_leaver2': ['b']})
 UNITS['exec_ew'] = dict(EXEC, cut=CUTNEST, threads={'vp_thr_entrant': ['a'], 'vp_thr_worker': ['b']})
 UNITS['exec_l'] = dict(EXEC, threads={'vp_thr_waiter': ['a'], 'vp_thr_leaver': ['b']})
+HS = dict(wrapper='w_hs.cpp', mode='lcs', unroll=1, devirt=True, cxxflags=['-D__TBB_BUILD=1'],
+          cut=['timed_spin_wait_until', 'get_address_waiter', 'binary_semaphore1PEv', 'binary_semaphore1VEv'], pure=['get_address_waiter'],
+          threads={'vp_thr_unlocker': ['a'], 'vp_thr_sleeper': ['b']})
+UNITS['hs'] = dict(HS)
+UNITS['hs_tso'] = dict(HS, tso=True)
 COMMON = dict(cbmc=['--unwind', '8', '--object-bits', '12'], native_cflags=['-fno-sanitize=null,pointer-overflow'], mem_gb=8)
 def H(**kw):
     d = dict(COMMON); d.update(kw); return d
@@ -128,6 +133,16 @@ HARNESSES.append(H(name='execute_slot_leave', unit='exec_l', harness='h_exec.c',
     desc='task_arena::execute, leaving side: REAL ~nested_arena_context() (built by the real occupy_free_slot + constructor): request_workers, leave_task_dispatcher, '
          'my_arena_slot->release(), my_exit_monitors.notify_one(), re-attach to the home arena, vs a minimal entrant with the same hand-shake '
          '(prepare_wait -> real occupy_free_slot -> commit_wait | cancel_wait)', bounds={'threads': 2, 'free_rounds': 2, 'forced_rounds': 2, 'unroll': 1}, **EXC))
+HSD = dict(harness='h_hs.c', scenarios=[{}], native_cflags=['-fno-sanitize=null,pointer-overflow'])
+HARNESSES.append(H(name='mutex_handshake_sc', unit='hs', defines={'ROUNDS': 2, 'HS_WAIT_CLOSURE': 'S_class_anon_11'}, timeout=600,
+    desc='minimal tbb::mutex unlock || sleep hand-shake (sequentially consistent): U = REAL mutex::unlock (exchange(false); notify_by_address_one -> notify_one_relaxed: empty-check, '
+         'dequeue, V), W = REAL waitable_atomic::wait past its spinning phase -> wait_on_address -> prepare_wait (insertion under the real concurrent_monitor_mutex + '
+         'atomic_fence_seq_cst) -> predicate re-check -> commit_wait | cancel_wait. get_address_waiter, binary_semaphore::P/V (one-flag stub), timed_spin_wait_until cut',
+    bounds={'threads': 2, 'free_rounds': 2, 'forced_rounds': 2, 'unroll': 1}, **HSD))
+HARNESSES.append(H(name='mutex_handshake_tso', unit='hs_tso', tiers=['thorough'], defines={'ROUNDS': 1, 'HS_WAIT_CLOSURE': 'S_class_anon_11'}, timeout=7200, mem_gb=16,
+    desc='mutex_handshake_sc under x86-TSO: per-thread FIFO store buffer (depth 2), nondeterministic flushes at slice starts, drained by locked RMWs / seq_cst stores / fences, '
+         'everything flushed before the forced rounds: the unlocking store must be globally visible before the wait-set empty-check (Dekker)',
+    bounds={'threads': 2, 'free_rounds': 1, 'forced_rounds': 2, 'unroll': 1, 'memory_model': 'x86-TSO, store buffer depth 2'}, **HSD))
 # development aid (mutation testing of one expensive scenario): VP_C02_SCEN="OP0=0,OP1=4" keeps only the scenarios containing these pairs
 import os as _os
 if _os.environ.get('VP_C02_SCEN'):
